@@ -179,17 +179,62 @@ func c02body(c *xplore.Ctx) (text string, form string, fs []ev.Finding, skipped 
 
 func init() {
 	register(&Check{ID: "C02", Run: c02run, Replay: func(raw json.RawMessage) []ev.Finding {
-		var c vecCase
-		if json.Unmarshal(raw, &c) != nil {
+		var probe map[string]json.RawMessage
+		if json.Unmarshal(raw, &probe) != nil {
 			return nil
 		}
+		if _, ok := probe["text"]; ok {
+			var m map[string]string
+			json.Unmarshal(raw, &m)
+			stmt, err := influxql.ParseStatement(m["text"])
+			if err != nil {
+				return nil
+			}
+			fs := c02roundTrip(stmt, m["text"], "any", m, 0)
+			for i := range fs {
+				fs[i].Sig = "empty-identifier-not-printed:" + c02emptyKind(m["text"])
+			}
+			return fs
+		}
+		var c vecCase
+		json.Unmarshal(raw, &c)
 		var out []ev.Finding
 		xplore.Replay(func(x *xplore.Ctx) { _, _, out, _ = c02body(x) }, c.Vector)
 		return out
 	}})
 }
 
+// Statements with an empty quoted identifier: the parser accepts them although the README grammar requires at least
+// one character, so the grammar model does not produce them; they are probed here so that the known printer defect
+// (an empty name is printed as nothing, or as the :MEASUREMENT back-reference) stays visible under its own signature.
+var c02emptyNames = []string{`SELECT a FROM ""`, `SELECT a INTO "" FROM m`, `SELECT a FROM db0.rp0.""`, `SHOW MEASUREMENTS ON "".rp0`, `SHOW MEASUREMENTS ON "".*`,
+	`SELECT "" FROM m`, `DROP DATABASE ""`, `SHOW TAG VALUES FROM "" WITH KEY = k`, `DELETE FROM ""`, `SELECT a AS "" FROM m`, `SELECT a FROM m GROUP BY ""`}
+
+func c02emptyKind(t string) string {
+	switch {
+	case strings.Contains(t, `INTO ""`):
+		return "target-name"
+	case strings.Contains(t, `ON ""`):
+		return "database-in-ON"
+	case strings.Contains(t, `FROM ""`), strings.Contains(t, `.""`):
+		return "measurement-name"
+	}
+	return "other"
+}
+
 func c02run(r *ev.Run) {
+	for _, t := range c02emptyNames {
+		stmt, err := influxql.ParseStatement(t)
+		if err != nil {
+			continue
+		}
+		r.Eval()
+		r.State(astx.HashString("E|"+t), true)
+		for _, f := range c02roundTrip(stmt, t, "any", map[string]string{"text": t}, len(t)) {
+			f.Sig = "empty-identifier-not-printed:" + c02emptyKind(t)
+			r.Report(f)
+		}
+	}
 	sets := []boundSet{{"struct<=2,value<=1", []int{2, 0, 1}}}
 	if thorough(r) {
 		sets = []boundSet{{"struct<=3,value<=1", []int{3, 0, 1}}, {"struct<=2,value<=2", []int{2, 0, 2}}}
